@@ -162,6 +162,10 @@ class Gen:
             x, y = rng.sample(NAMES, 2)
             self.mark_int(x)
             self.mark_int(y)
+            if rng.random() < 0.5:
+                z = self.name()
+                self.mark_int(z)
+                return ["bind", y, ["add", ["walrus", x, ["add", ["walrus", z, V], V]], V]]
             return ["bind", y, ["add", ["walrus", x, V], V]]
         if kind == "if":
             return ["if", self.block(depth + 1, in_loop), []]
